@@ -1,6 +1,8 @@
 import sys, os
 sys.path.insert(0, os.path.join(os.path.dirname(os.path.abspath(__file__)), '..', 'engine'))
 from driver import *
+sys.path.insert(0, os.path.dirname(os.path.abspath(__file__)))
+import common_jobs
 
 
 def main(tier):
@@ -9,10 +11,11 @@ def main(tier):
                  'pacing': 'one clock cycle from every state: a sequencer step iff the clock index is a multiple of 8192, and the step index parity alternates between consecutive steps (length clocks 16384 clocks apart) across the once-per-second wrap and NR52 power toggles',
                  'accepted either way': 'trigger in the first half of a sequencer period with length enable on and the counter at its maximum without reload (documented rule keeps the maximum, the statement\'s wording admits max-1)',
                  'outside': 'dmg_sound ROM; envelope and sweep audible behaviour; the one-step lemmas compose to "on for exactly 64-t length clocks" by induction, the composed scenario is not unrolled'}
-    ck.assumptions = ['audioInv (proved inductive in C18)']
+    ck.assumptions = ['audioInv (field ranges; its inductive step is re-proved in this check)']
     jobs = [('audio', 'VerifApuStatusWrite', {'ch': k, 'reg': r}) for k in (1, 2, 3, 4) for r in range(21)]
     jobs += [('audio', 'VerifApuStatusClock', {'ch': k, 'what': w}) for k in (1, 2, 3, 4) for w in (0, 2)] + [('audio', 'VerifApuStatusClock', {'ch': 1, 'what': 1})]
     jobs += [('audio', 'VerifSequencerPacing', {})]
+    common_jobs.run_audio_inv(ck)
     ck.run(jobs, timeout_ms=300000)
     ck.finish(explanation='one-step checks of channel status and length counters against a reference, and of the frame sequencer pacing')
 
